@@ -3,7 +3,9 @@
 (* The log is totally ordered (one mutex): init (catalog, tasks), w (catalog write, logged before the put), r (a    *)
 (* reader step of some task; "list" carries the ids GetAllCollection returned; "sub" = the task registered its      *)
 (* consumers), db (a database record is written), d (delivery barrier: the watches have handled what was written so  *)
-(* far), start / addp / dropc / dropp (calls on the recording channel manager), end (trace cut after the driver's    *)
+(* far; hold / stalled / release: a consumer callback that runs in the collection watch goroutine is kept from       *)
+(* returning - no contract content either), start / addp / dropc / dropp (calls on the recording channel manager,   *)
+(* logged when the call is made), end (trace cut after the driver's    *)
 (* quiescence protocol).  The acceptor keeps                                                                         *)
 (* the ghost variables of CatalogWatch.tla (catalog, ever, started, bad, added, droppedC, allOlder, newestL) and    *)
 (* requires the contract clauses: always OnlyCreated, OnlySelected, NoOlderStart; ListingHonoured at the listing    *)
@@ -32,8 +34,9 @@ TInit == /\ tr \in 1..Len(Traces) /\ l = 1 /\ mustP = {}
          /\ sub = FALSE /\ pc = 0 /\ cbuf = <<>> /\ pbuf = <<>> /\ cpos = 0 /\ ppos = 0 /\ older = {}
          /\ started = {} /\ bad = {} /\ added = {} /\ droppedC = {} /\ ever = {} /\ everP = {}
          /\ allOlder = {} /\ newestL = {} /\ nw = 0 /\ hist = <<>>
+         /\ hold = "off" /\ holdId = NoId /\ listRev = 0
 
-Frame == UNCHANGED <<cat0, sub, pc, cbuf, pbuf, cpos, ppos, older, nw, hist>>
+Frame == UNCHANGED <<cat0, sub, pc, cbuf, pbuf, cpos, ppos, older, nw, hist, hold, holdId, listRev>>
 
 CollAfter(kind, st) == CASE kind = "new" -> "creating" [] kind = "ok" -> "created" [] kind \in {"fail", "gc"} -> "tombstone"
                          [] kind = "drop" -> "dropping" [] kind = "dropped" -> "dropped" [] OTHER -> st
@@ -109,7 +112,7 @@ TStep ==
               [] e.op = "dropc" -> EvDropC(e)
               [] e.op = "dropp" -> EvOther
               [] e.op = "db" -> EvOther                  \* a database record is written (variant -ldb): no contract content
-              [] e.op = "d" -> EvOther                   \* delivery barrier of the driver: no contract content
+              [] e.op = "d" -> EvOther                   \* delivery barrier / hold / release of the driver: no contract content
               [] e.op = "end" -> EvEnd(t, e) /\ l = Len(t.events)
               [] OTHER -> FALSE
          /\ OnlyCreated' /\ OnlySelectedP(TSelected(t))' /\ NoOlderStart'
